@@ -377,7 +377,12 @@ def run_shard(desc):
 
 def replay(case):
     sh = Shard()
-    if case["kind"] == "overlap_tall":
+    if case["kind"] == "sched":
+        tier = "quick" if case["shape"] == [3, 3] else "thorough"
+        for c in range(4):
+            r = _run_sched(("sched", c, 4, tier))
+            sh.violations += [v for v in r.violations if v["case"]["mask"] == case["mask"]]
+    elif case["kind"] == "overlap_tall":
         r = _run_overlap_tall(("overlap_tall", 0, 1))
         sh.violations = [v for v in r.violations if v["case"]["frame1"] == case["frame1"] and v["case"]["frame2"] == case["frame2"]]
     elif case["kind"] == "overlap":
